@@ -127,11 +127,14 @@ func (vm *VM) errMakeSliceOutOfRange() runtimeError {
 
 // newPanic returns a new *PanicError with the given error message.
 func (vm *VM) newPanic(msg any) *PanicError {
-	return &PanicError{
-		message:  msg,
-		path:     vm.fn.InstructionInfo[vm.pc].Path,
-		position: vm.fn.InstructionInfo[vm.pc].Position,
+	p := &PanicError{message: msg}
+	// vm.fn is nil if a deferred native function, called while the
+	// goroutine is panicking, panics.
+	if vm.fn != nil {
+		p.path = vm.fn.InstructionInfo[vm.pc].Path
+		p.position = vm.fn.InstructionInfo[vm.pc].Position
 	}
+	return p
 }
 
 // convertPanic converts a panic to an error.
@@ -139,10 +142,21 @@ func (vm *VM) convertPanic(msg any) error {
 	switch err := msg.(type) {
 	case stopError:
 		return err
+	case *fatalError:
+		return err
 	case outError:
 		return vm.newPanic(err)
 	}
-	switch op := vm.fn.Body[vm.pc-1].Op; op {
+	// If vm.fn is nil, or the instruction is a Return, a deferred native
+	// function, called while the goroutine is panicking or while a function
+	// is returning, has panicked.
+	op := OpCallNative
+	if vm.fn != nil {
+		if op = vm.fn.Body[vm.pc-1].Op; op == OpReturn {
+			op = OpCallNative
+		}
+	}
+	switch op {
 	case OpAddr, OpIndex, -OpIndex, OpIndexRef, -OpIndexRef, OpSetSlice, -OpSetSlice:
 		switch err := msg.(type) {
 		case runtime.Error:
